@@ -100,14 +100,14 @@ def mkEnv (crude : Bool) (opps : List (Text × List Nat)) : Env :=
     opps := fun stripped => (opps.lookup stripped).getD [] }
 
 /-- minima oracle: what the real `smawk` returned for this very fragment list (recorded by the
-    guarded hook); falls back to the model's own naive minima when the table has no entry. -/
+    guarded hook); falls back to the model's own `smawk` (TextwrapModel/Smawk.lean) when the table has no entry. -/
 def mkMinima (pen : Penalties) (tbl : List (List (UInt64 × UInt64 × UInt64) × List UInt64 × List Nat)) :
     MinimaOracle Float := fun frs lws =>
   let key := frs.map fun f => (f.w.toBits, f.ws.toBits, f.pen.toBits)
   let lk := lws.map Float.toBits
   match tbl.find? fun e => e.1 == key && e.2.1 == lk with
   | some e => e.2.2
-  | none => (naiveMinima pen lws frs (prefixWidths frs) frs.length).2
+  | none => ownMinima pen frs lws
 
 /-- `width,bw,sep,splitter,alg,nline,overflow,frac,shortpen,hyphen,ending` -/
 def parseOpts (s ii si : String) : Opts × Penalties :=
